@@ -139,56 +139,110 @@ Definition seize_rule_vault (g : gen) (v : vault_in) : verdict :=
   end.
 
 (* ---- borrows ---- *)
+(* everything LiquidateIndividualBorrow / UpdateLockedBorrows read for one borrow (liquidationsV2
+   liquidate.go:261-404), as raw as the code reads it: the case split (same pool / first transit /
+   second transit, e-mode) is made by the MODEL from these fields, not by the harness *)
 Record borrow_in := mkBorrowIn {
   b_id : Z;
   b_found : bool;                   (* GetBorrow found *)
   b_liquidated : bool;              (* IsLiquidated *)
-  b_lend_found : bool;              (* GetLend found *)
+  b_lend_found : bool;              (* GetLend(borrowPos.LendingID) found *)
   b_kill : bool;                    (* kill switch of lendPos.AppID *)
   b_interest_ok : bool;             (* CalculateBorrowInterestForLiquidation / ReBalanceStableRates succeed *)
-  b_amt_in : Z; b_amt_out : Z;      (* AmountIn.Amount, AmountOut.Amount (after the interest update) *)
-  b_interest : Z;                   (* InterestAccumulated (Dec) after the interest update *)
-  b_price_in : option Z; b_dec_in : Z;
-  b_price_out : option Z; b_dec_out : Z;
-  b_threshold : Z;                  (* LiquidationThreshold or ELiquidationThreshold of asset in (Dec) *)
-  b_bridge : Z;                     (* 0 = same pool, 1 = first transit asset, 2 = second *)
-  b_thr_one : Z; b_thr_two : Z;     (* LiquidationThreshold of the two transit assets (Dec) *)
-  b_white : bool;                   (* V2: whitelisting found for the app *)
-  b_start_ok : bool                 (* the seizure itself succeeds (funds in the pool module, auction start) *)
+  b_interest_panic : bool;          (* ... panic (division by a zero GlobalIndex / ReserveGlobalIndex of the borrow) *)
+  b_amt_in : Z; b_amt_out : Z;      (* AmountIn.Amount, AmountOut.Amount *)
+  b_interest : Z;                   (* InterestAccumulated (Dec) after the interest update of this visit *)
+  b_price_in : option Z; b_dec_in : Z;    (* lendPair.AssetIn: active Twa, Decimals *)
+  b_price_out : option Z; b_dec_out : Z;  (* lendPair.AssetOut *)
+  b_liq_thr : Z;                    (* AssetRatesParams(lendPair.AssetIn).LiquidationThreshold (Dec) *)
+  b_eliq_thr : Z;                   (* ... .ELiquidationThreshold (Dec) *)
+  b_emode : bool;                   (* lendPair.IsEModeEnabled *)
+  b_bridged_amt : Z;                (* borrowPos.BridgedAssetAmount.Amount *)
+  b_bridged_denom : Z;              (* borrowPos.BridgedAssetAmount.Denom, as the id of the asset with that denom *)
+  b_first_denom : Z;                (* denom of the first transit asset (AssetTransitType 2, last such entry) of the
+                                       pool of the LEND position, as an asset id; 0 = the pool has none (denom "") *)
+  b_thr_one : Z; b_thr_two : Z;     (* LiquidationThreshold of the pool's first / second transit asset (Dec) *)
+  b_white : bool;                   (* V2: liquidation whitelisting found for lendPos.AppID *)
+  b_dutch : bool; b_english : bool; (* V2: its IsDutchActivated / IsEnglishActivated *)
+  b_pool_bal : Z; b_cpool_bal : Z;  (* V2: balance of the lend position's pool module in the collateral denom / its cToken denom *)
+  b_v1_start : bool                 (* V1 (not wired on this tree): the seizure itself succeeds *)
 }.
 
-(* lend.CalculateCollateralizationRatio(amountIn, assetIn, amountOut, assetOut):
-   CalcAssetPrice(out) / CalcAssetPrice(in) — debt over collateral *)
+(* lend.CalculateCollateralizationRatio(amountIn, assetIn, amountOut, assetOut) with
+   amountOut = AmountOut + InterestAccumulated.TruncateInt():
+   CalcAssetPrice(out).Quo(CalcAssetPrice(in)) - debt over collateral; the collateral is priced first *)
 Definition lend_cr (b : borrow_in) : outcome Z :=
   let debt := b_amt_out b + dtrunc_int (b_interest b) in
   obind (calc_asset_price (b_price_in b) (b_dec_in b) (b_amt_in b)) (fun tin =>
   obind (calc_asset_price (b_price_out b) (b_dec_out b) debt) (fun tout =>
   oz (dquo_c tout tin))).
 
-(* the threshold applicable to the borrow, incl. the bridged-asset products *)
-Definition borrow_threshold (b : borrow_in) : outcome Z :=
-  if b_bridge b =? 0 then Ok (b_threshold b)
-  else if b_bridge b =? 1 then oz (dmul_c (b_threshold b) (b_thr_one b))
-  else oz (dmul_c (b_threshold b) (b_thr_two b)).
+(* liquidate.go:295-298: the collateral asset's threshold, e-mode pairs use ELiquidationThreshold *)
+Definition base_threshold (b : borrow_in) : Z :=
+  if b_emode b then b_eliq_thr b else b_liq_thr b.
 
+Inductive bridge_case := SamePool | FirstTransit | SecondTransit.
+
+(* liquidate.go:320 / :332: BridgedAssetAmount.Amount == 0 -> same pool; else its denom equals the
+   first transit asset's denom -> first; else -> second *)
+Definition bridge_of (b : borrow_in) : bridge_case :=
+  if b_bridged_amt b =? 0 then SamePool
+  else if b_bridged_denom b =? b_first_denom b then FirstTransit
+  else SecondTransit.
+
+(* the liquidation threshold applicable to the borrow, as the code computes it (liquidate.go:325,
+   :337, :349): the base threshold, or its sdk.Dec product (Mul: round half even at 18 places)
+   with the LiquidationThreshold (never the e-mode one) of the transit asset the borrow is
+   bridged through *)
+Definition applicable_threshold (b : borrow_in) : outcome Z :=
+  match bridge_of b with
+  | SamePool => Ok (base_threshold b)
+  | FirstTransit => oz (dmul_c (base_threshold b) (b_thr_one b))
+  | SecondTransit => oz (dmul_c (base_threshold b) (b_thr_two b))
+  end.
+
+(* sdk.Dec.GT(currentCollateralizationRatio, threshold); the ratio is computed first (its errors
+   return first) *)
+Definition ratio_above_of (cr th : outcome Z) : outcome bool :=
+  obind cr (fun c => obind th (fun t => Ok (c >? t))).
 Definition ratio_above (b : borrow_in) : outcome bool :=
-  obind (lend_cr b) (fun cr =>
-  obind (borrow_threshold b) (fun th => Ok (cr >? th))).
+  ratio_above_of (lend_cr b) (applicable_threshold b).
 
-Definition seize_rule_borrow (g : gen) (b : borrow_in) : verdict :=
+(* UpdateLockedBorrows can complete (liquidate.go:360-404): SendCoinsFromModuleToModule(pool ->
+   auctionsV2, AmountIn of the collateral denom), BurnCoins(pool, AmountIn of the cToken),
+   CreateLockedVault with AuctionType = IsDutchActivated: a Dutch auction needs active prices of
+   both assets (they are: the ratio was computed), an English one IsEnglishActivated *)
+Definition borrow_funds_ok (b : borrow_in) : bool :=
+  (b_amt_in b <=? b_pool_bal b) && (b_amt_in b <=? b_cpool_bal b).
+Definition borrow_start_ok (b : borrow_in) : bool :=
+  borrow_funds_ok b && (b_dutch b || b_english b).
+
+Definition seize_rule_borrow_of (g : gen) (b : borrow_in) (above_ : outcome bool) : verdict :=
   if negb (b_found b) then (match g with GB1 => VKeep | _ => VErr end)
   else if b_liquidated b then VKeep
   else if negb (b_lend_found b) then VErr
   else if b_kill b then VErr
+  else if b_interest_panic b then VPanic
   else if negb (b_interest_ok b) then VErr
   else verdict_of_outcome
-    (obind (ratio_above b) (fun above =>
+    (obind above_ (fun above =>
      if above then
        (match g with
-        | GB1 => if b_start_ok b then Ok true else Err 5
-        | _ => if negb (b_white b) then Err 6 else if b_start_ok b then Ok true else Err 5
+        | GB1 => if b_v1_start b then Ok true else Err 5
+        | _ => if negb (b_white b) then Err 6 else if borrow_start_ok b then Ok true else Err 5
         end)
      else Ok false)).
+
+Definition seize_rule_borrow (g : gen) (b : borrow_in) : verdict :=
+  seize_rule_borrow_of g b (ratio_above b).
+
+(* everything the runner needs about one visit, the ratio computed once *)
+Record beval := mkBeval { e_v : verdict; e_cr : outcome Z; e_th : outcome Z; e_unsafe : bool }.
+Definition borrow_eval (g : gen) (b : borrow_in) : beval :=
+  let cr := lend_cr b in
+  let th := applicable_threshold b in
+  let above := ratio_above_of cr th in
+  mkBeval (seize_rule_borrow_of g b above) cr th (match above with Ok x => x | _ => false end).
 
 (* ------------------------------------------------------------------------------------ *)
 (* 3. the sweep over a position list                                                      *)
@@ -252,6 +306,11 @@ Record sweep_res := mkRes {
 Definition two63 : Z := 9223372036854775808.
 Definition int_of_u64 (c : Z) : Z := if c >=? two63 then c - two64 else c.
 Definition u64 (x : Z) : Z := x mod two64.
+
+(* the parameter validation of LiquidationBatchSize (x/liquidationsV2/types/params.go
+   validateLiquidationBatchSize, since fix C09-F4): positive and representable as an int - the sweeps
+   convert the stored uint64 with int(...) *)
+Definition valid_batch (b : Z) : bool := (1 <=? b) && (b <? two63).
 
 (* One sweep over the list, sliced by [len] (an int).  [cap] is the capacity of the slice the
    keeper returned.  Result: seized ids, list afterwards, offset to store (= end of the window,
@@ -371,6 +430,113 @@ Definition holds_C09_handover (before after : custody) (amts : list Z) : bool :=
 Definition holds_C09_handover_one (amt_in n_locked locked_amt n_auctions auction_amt : Z) : bool :=
   (n_locked =? 1) && (locked_amt =? amt_in) && (n_auctions =? 1) && (auction_amt =? amt_in).
 
+(* ---- 4b. the book-keeping of one BORROW seizure (UpdateLockedBorrows, liquidate.go:360-404) ---- *)
+Definition key := (Z * Z)%type.
+Definition key_eqb (a b : key) : bool := (fst a =? fst b) && (snd a =? snd b).
+
+(* finite maps as association lists in a fixed key order (the order the harness dumps them in);
+   a missing key reads 0 *)
+Fixpoint kget (m : list (key * Z)) (k : key) : Z :=
+  match m with [] => 0 | (k', v) :: r => if key_eqb k' k then v else kget r k end.
+Fixpoint kadd (m : list (key * Z)) (k : key) (d : Z) : list (key * Z) :=
+  match m with
+  | [] => [(k, d)]
+  | (k', v) :: r => if key_eqb k' k then (k', v + d) :: r else (k', v) :: kadd r k d
+  end.
+(* lend positions: (id, AmountIn) in id order; a position whose amount is not positive after the
+   subtraction is deleted *)
+Fixpoint lend_sub (m : list (Z * Z)) (id d : Z) : list (Z * Z) :=
+  match m with
+  | [] => []
+  | (i, v) :: r => if i =? id then (if v - d >? 0 then (i, v - d) :: r else r) else (i, v) :: lend_sub r id d
+  end.
+Fixpoint lend_get (m : list (Z * Z)) (id : Z) : option Z :=
+  match m with [] => None | (i, v) :: r => if i =? id then Some v else lend_get r id end.
+
+(* account 0 = the auctionsV2 module account; the other accounts are the pools' module accounts *)
+Definition auction_acc : Z := 0.
+
+(* what a borrow seizure touches; every field is read from the records BEFORE the step *)
+Record bseize := mkBS {
+  z_id : Z;                 (* borrow id *)
+  z_amt_in : Z;             (* borrow.AmountIn.Amount: the recorded collateral *)
+  z_amt_out : Z;            (* borrow.AmountOut.Amount *)
+  z_stable : bool;          (* borrow.IsStableBorrow *)
+  z_pool_acc : Z;           (* module account of the LEND position's pool *)
+  z_denom_in : Z;           (* assetIn.Denom (the underlying collateral), as an asset id *)
+  z_cdenom : Z;             (* the cToken of the collateral asset *)
+  z_pool_in : Z; z_asset_in : Z;    (* lendPos.PoolID, lendPos.AssetID *)
+  z_pool_out : Z; z_asset_out : Z;  (* lendPair.AssetOutPoolID, lendPair.AssetOut *)
+  z_lend : Z                (* borrow.LendingID *)
+}.
+
+Record lworld := mkLW {
+  w_bal : list (key * Z);       (* (account, denom) -> bank balance *)
+  w_supply : list (key * Z);    (* (0, denom) -> total supply (cTokens are burnt) *)
+  w_tlend : list (key * Z);     (* (pool, asset) -> PoolAssetLBMapping.TotalLend *)
+  w_tborrow : list (key * Z);   (* (pool, asset) -> TotalBorrowed *)
+  w_tstable : list (key * Z);   (* (pool, asset) -> TotalStableBorrowed *)
+  w_lend : list (Z * Z);        (* lend positions: (id, AmountIn.Amount) *)
+  w_liq : list Z;               (* borrows with IsLiquidated set, in the order they were set *)
+  w_locked : list (Z * Z);      (* locked vaults opened: (OriginalVaultId, CollateralToken.Amount) *)
+  w_auction : list (Z * Z)      (* auctions opened: (OriginalVaultId of their locked vault, CollateralToken.Amount) *)
+}.
+
+Definition seize_borrow_world (w : lworld) (z : bseize) : lworld :=
+  let a := z_amt_in z in
+  mkLW
+    (kadd (kadd (kadd (w_bal w) (z_pool_acc z, z_denom_in z) (- a)) (auction_acc, z_denom_in z) a)
+          (z_pool_acc z, z_cdenom z) (- a))
+    (kadd (w_supply w) (0, z_cdenom z) (- a))
+    (kadd (w_tlend w) (z_pool_in z, z_asset_in z) (- a))
+    (if z_stable z then w_tborrow w else kadd (w_tborrow w) (z_pool_out z, z_asset_out z) (- z_amt_out z))
+    (if z_stable z then kadd (w_tstable w) (z_pool_out z, z_asset_out z) (- z_amt_out z) else w_tstable w)
+    (lend_sub (w_lend w) (z_lend z) a)
+    (w_liq w ++ [z_id z])
+    (w_locked w ++ [(z_id z, a)])
+    (w_auction w ++ [(z_id z, a)]).
+
+(* decidable equality of observations *)
+Definition kv_eqb (a b : key * Z) : bool := key_eqb (fst a) (fst b) && (snd a =? snd b).
+Definition zz_eqb (a b : Z * Z) : bool := (fst a =? fst b) && (snd a =? snd b).
+Fixpoint list_eqb {A} (eqb : A -> A -> bool) (l1 l2 : list A) : bool :=
+  match l1, l2 with
+  | [], [] => true
+  | a :: r1, b :: r2 => eqb a b && list_eqb eqb r1 r2
+  | _, _ => false
+  end.
+Definition lworld_eqb (a b : lworld) : bool :=
+  list_eqb kv_eqb (w_bal a) (w_bal b) && list_eqb kv_eqb (w_supply a) (w_supply b) &&
+  list_eqb kv_eqb (w_tlend a) (w_tlend b) && list_eqb kv_eqb (w_tborrow a) (w_tborrow b) &&
+  list_eqb kv_eqb (w_tstable a) (w_tstable b) && list_eqb zz_eqb (w_lend a) (w_lend b) &&
+  list_eqb Z.eqb (w_liq a) (w_liq b) && list_eqb zz_eqb (w_locked a) (w_locked b) &&
+  list_eqb zz_eqb (w_auction a) (w_auction b).
+
+(* the borrow hand-over predicate, evaluated on the IMPLEMENTATION's observations before / after a
+   step in which it seized the borrows [zs] (descriptors read before the step): the world after
+   the step is exactly the world before it with every seizure's book-keeping applied - exactly
+   the recorded collateral left the pool for auction custody, the same amount of cTokens was
+   burnt, the pool statistics and the lend position shrank by exactly the recorded amounts,
+   IsLiquidated was set, exactly one locked vault and one auction per seizure for exactly the
+   recorded collateral, and nothing else moved *)
+Definition holds_C09_handover_borrow (before after : lworld) (zs : list bseize) : bool :=
+  lworld_eqb (fold_left seize_borrow_world zs before) after.
+
+(* ---- 4c. MsgLiquidateExternalKeeper (liquidate.go:679-718): anyone hands collateral of his own to the
+   auction module against the app's reserve funds for the debt asset; a Dutch auction is opened ---- *)
+Definition ext_rule (params reserve dutch : bool) (price_c price_d : option Z) : bool :=
+  params && reserve && dutch && is_some price_c && is_some price_d.
+
+Definition ext_world (w : lworld) (denom amt : Z) : lworld :=
+  mkLW (kadd (w_bal w) (auction_acc, denom) amt) (w_supply w) (w_tlend w) (w_tborrow w) (w_tstable w)
+       (w_lend w) (w_liq w) (w_locked w ++ [(0, amt)]) (w_auction w ++ [(0, amt)]).
+
+Definition holds_C09_handover_external (before after : lworld) (denom amt : Z) : bool :=
+  lworld_eqb (ext_world before denom amt) after.
+
+(* the id-level effect of the sweep and the world-level effect name the same borrows *)
+Definition seized_ids (zs : list bseize) : list Z := map z_id zs.
+
 (* ------------------------------------------------------------------------------------ *)
 (* 5. property predicates on observations                                                 *)
 
@@ -383,6 +549,30 @@ Definition borrow_unsafe (b : borrow_in) : bool :=
 (* safety: every seized position was on the unsafe side at the inputs the step read *)
 Definition holds_C09_safe (seized : list vault_in) : bool := forallb vault_unsafe seized.
 Definition holds_C09_safe_borrow (seized : list borrow_in) : bool := forallb borrow_unsafe seized.
+
+(* the property's liveness hypotheses for a borrow at one block: the position exists and is open,
+   the kill switch is off, liquidation is enabled for the app (whitelisting) with an auction type
+   activated; active prices are implied by a computable ratio (borrow_unsafe) *)
+Definition live_hyp_borrow (b : borrow_in) : bool :=
+  b_found b && negb (b_liquidated b) && b_lend_found b && negb (b_kill b) &&
+  b_white b && (b_dutch b || b_english b).
+
+(* known-finding class C09-F5: every hypothesis of the property holds and the borrow is above its
+   threshold, but the module account of the collateral's pool holds less of the collateral asset
+   than the borrow recorded (the rest is lent out to other borrowers): UpdateLockedBorrows fails at
+   SendCoinsFromModuleToModule, the visit is rolled back, the borrow is not seized - in any block
+   while the pool stays short *)
+Definition kf_C09_5 (b : borrow_in) : bool :=
+  live_hyp_borrow b && borrow_unsafe b && negb (borrow_funds_ok b).
+
+(* known-finding class C09-F6: every hypothesis of the property holds and the borrow is above its
+   threshold (at its STORED interest), but the interest update every visit starts with fails: the
+   borrow was opened while lend.GetReserveRate was exactly 0 (e.g. the only earlier borrows of that
+   pool asset are stable borrows of an asset whose stable rate parameters are 0), its
+   ReserveGlobalIndex is 0 and lend.CalculateBorrowInterest divides by it - in every block, and in
+   every liquidate / repay / close message *)
+Definition kf_C09_6 (b : borrow_in) : bool :=
+  live_hyp_borrow b && borrow_unsafe b && (b_interest_panic b || negb (b_interest_ok b)).
 
 (* liveness hypotheses for a vault at one block: controls off, prices active, liquidation and
    its auction type enabled *)
@@ -398,6 +588,13 @@ Definition live_R (m b : Z) : Z := (m - 1) / b + 2.
 Definition live_bound (m c b : Z) : Z := m * live_R m b + 2 * c.
 
 Definition holds_C09_live (age m c b : Z) : bool := age <=? live_bound m c b.
+
+(* the proved bound for the V2 BORROW sweep with interleaved repayments and new borrows: an
+   insertion anywhere in the list costs at most 3 blocks (an appended vault: 2) *)
+Definition blive_bound (m c b : Z) : Z := live_bound m c b + c.
+Definition holds_C09_live_borrow (age m c b : Z) : bool := age <=? blive_bound m c b.
+(* quiet chain (no repayment / new borrow during the wait): within live_R n b = (n-1)/b + 2 blocks *)
+Definition holds_C09_live_borrow_quiet (age n b : Z) : bool := age <=? live_R n b.
 
 (* the property's literal bound: two full sweeps of the list *)
 Definition two_sweeps (n b : Z) : Z := 2 * ((n + b - 1) / b).
@@ -458,12 +655,16 @@ Definition n_creates (evs : list event) : Z := zsum (map is_create evs).
    IsLiquidated set.  BBlock vf = one block of the V2 borrow sweep in which borrow id reaches the
    verdict vf id (ANY verdict, errors and panics included, for every borrow: every price path and
    every fault of another position); BClose id = the borrow is repaid / deleted (leaves the
-   list); BCreate id = a new borrow (appended).  State: ids, stored offset (key 1), the ids
-   liquidated so far. ---- *)
+   list); BCreate k id = a new borrow, INSERTED at position k: lend.GetBorrows concatenates the
+   BorrowIds of the pool-asset statistics in store-key order (pool, asset), a new borrow is appended
+   to the BorrowIds of ITS (AssetOutPoolID, AssetOut), i.e. anywhere in the swept list (k >= length
+   = appended).  State: ids, stored offset (key 1), the ids liquidated so far. ---- *)
 Inductive bevent :=
 | BBlock (vf : Z -> verdict)
 | BClose (id : Z)
-| BCreate (id : Z).
+| BCreate (k : nat) (id : Z).
+
+Definition insert_at (k : nat) (id : Z) (ids : list Z) : list Z := firstn k ids ++ id :: skipn k ids.
 
 Definition bpos (vf : Z -> verdict) (liq : list Z) (id : Z) : pos :=
   mkPos id 0 (if mem_z id liq then VKeep else vf id).
@@ -483,11 +684,11 @@ Definition bev_step (batch : Z) (st : bstate) (e : bevent) : bstate :=
       let r := bblock_ids (bs_ids st) (bs_liq st) (bs_off st) batch vf in
       mkB (bs_ids st) (snd r) (bs_liq st ++ fst r)
   | BClose id => mkB (filter (fun x => negb (x =? id)) (bs_ids st)) (bs_off st) (bs_liq st)
-  | BCreate id => mkB (bs_ids st ++ [id]) (bs_off st) (bs_liq st)
+  | BCreate k id => mkB (insert_at k id (bs_ids st)) (bs_off st) (bs_liq st)
   end.
 
 Definition is_bblock (e : bevent) : Z := match e with BBlock _ => 1 | _ => 0 end.
-Definition is_bcreate (e : bevent) : Z := match e with BCreate _ => 1 | _ => 0 end.
+Definition is_bcreate (e : bevent) : Z := match e with BCreate _ _ => 1 | _ => 0 end.
 Definition n_bblocks (evs : list bevent) : Z := zsum (map is_bblock evs).
 Definition n_bcreates (evs : list bevent) : Z := zsum (map is_bcreate evs).
 
